@@ -323,7 +323,7 @@ theorem moveDepStep_spec {m0 m : Mgr} {x : Nat} {pend : Nat → Prop} (hI : Inv 
 
 /-! ### the third loop -/
 
-theorem mem_pushNew {l : List Nat} {a r : Nat} (h : r ∈ pushNew l a) : r ∈ l ∨ r = a := by
+theorem mem_pushNew_or {l : List Nat} {a r : Nat} (h : r ∈ pushNew l a) : r ∈ l ∨ r = a := by
   unfold pushNew at h
   split at h
   · exact Or.inl h
@@ -385,8 +385,8 @@ theorem moveDep_spec {m0 : Mgr} (hI : Inv m0) (hoff : m0.ctx = false ∨ m0.last
         · exact hxf r hr
       · intro r hr
         obtain ⟨glo, ghi⟩ := child_lvl_ge hW hn hlx
-        rcases mem_pushNew hr with hr | rfl
-        · rcases mem_pushNew hr with hr | rfl
+        rcases mem_pushNew_or hr with hr | rfl
+        · rcases mem_pushNew_or hr with hr | rfl
           · exact hg r hr
           · exact ⟨n.lo, hW.lo_mem _ _ hn, glo, rfl⟩
         · exact ⟨n.hi, hW.hi_mem _ _ hn, ghi, rfl⟩
